@@ -147,8 +147,9 @@ def dead_instruction_modules():
             else:
                 body = block(None) + br(0) + enc + END
             # whatever the instruction leaves on the stack is dropped by the (dead) unreachable in front of the function's end
-            m.add_func('i', '', (), body + (UNREACHABLE if how != 'br' else b''))
+            m.add_func('i', '', (), body + (UNREACHABLE if how != 'br' else b''), export='d%d' % len(m.exports))
         out.append(('every instruction in dead code after %s (%d instructions)' % (how, len(ops)), m.encode()))
+    dead_instruction_modules.names = [nm for nm, enc in ops]
     return out
 
 
